@@ -119,7 +119,10 @@ def oracle(ck, tier, deep):
                    use_sin=usin, weights=wt is not None, coeffs=coeffs.tolist())
         sig = dict(site="Distributions", clause="exact-recovery", method=method)
         try:
-            D = quiet(vmi.Distributions, origin=o_arg, rmax=rmax_arg, order=order, odd=odd, use_sin=usin, weights=wt, method=method)
+            # ("odd … is enabled automatically if order is odd": leaving it at its default is the same request)
+            okw = {} if (order % 2 and rng.random() < 0.5) else dict(odd=odd)
+            rep["odd_argument"] = "default" if not okw else odd
+            D = quiet(vmi.Distributions, origin=o_arg, rmax=rmax_arg, order=order, use_sin=usin, weights=wt, method=method, **okw)
             res = quiet(D.image, im)
             cn = res.cos()
         except Exception as e:
@@ -141,6 +144,10 @@ def oracle(ck, tier, deep):
         reach = min(max(row, h - 1 - row), max(col, w - 1 - col)) if not odd else min(row, h - 1 - row, max(col, w - 1 - col))
         good = [R for R in range(6 + N, min(cn.shape[1], reach - 1))]
         if not good:
+            continue
+        if cn.shape[0] != N:
+            ck.violation(dict(sig, clause="number-of-terms"), rep, f"order={order}, odd={rep['odd_argument']}: {cn.shape[0]} angular terms returned, "
+                                                                   f"the orders allowed by (order, odd) are {N}")
             continue
         err = np.abs(cn[:, good] - coeffs[:, None]).max()
         tol = 1e-9 * max(1.0, np.abs(coeffs).max()) * 10 ** (N - 1)
@@ -167,6 +174,35 @@ def oracle(ck, tier, deep):
                 if err2 > tol2:
                     ck.violation(dict(sig, clause="exact-recovery-object-reuse"), dict(rep, second_shape=[h2, w2], coeffs2=coeffs2.tolist()),
                                  f"the same Distributions object, second image of shape {(h2, w2)} after {(h, w)}: coefficients off by {err2:.3g}")
+    # "any strictly positive weights": a large dynamic range concentrated in a narrow region (a slit, a beam block's surroundings)
+    # leaves the higher-order systems invertible; the exact model is still recovered
+    import itertools
+    lattice = list(itertools.product([3.0, 5.0], [1e-6, 1e-4], [6, 8], [False])) + [(5.0, 1e-6, 8, True), (3.0, 1e-4, 5, True)]
+    for it in range(len(lattice) if not deep else 40):
+        n = int(rng.choice([81, 91, 101]))
+        a_l, floor_l, order, odd = lattice[it] if it < len(lattice) else (float(rng.choice([3.0, 5.0, 8.0])), float(rng.choice([1e-6, 1e-4])),
+                                                                           int(rng.choice([6, 8])), bool(it % 3 == 2))
+        N = 1 + (order if odd else order // 2)
+        origin = (n // 2, n // 2)
+        coeffs = rng.normal(size=N)
+        im, _ = synth_image((n, n), origin, coeffs, odd)
+        xx = np.arange(n) - n // 2
+        a, floor = a_l, floor_l
+        wt = np.tile(np.exp(-(xx / a) ** 2) + floor, (n, 1))
+        if it % 2:
+            wt = wt.T.copy()                           # a horizontal slit
+        ck.count(("S.slit", order, odd, a, floor, it % 2), suite="S.recover")
+        rep = dict(shape=[n, n], origin=list(origin), order=order, odd=odd, slit_width=a, floor=floor, horizontal=bool(it % 2), coeffs=coeffs.tolist())
+        sig = dict(site="Distributions", clause="exact-recovery", method="linear")
+        try:
+            cn = quiet(quiet(vmi.Distributions, origin=origin, rmax="MIN", order=order, odd=odd, weights=wt).image, im).cos()
+        except Exception as e:
+            ck.violation(dict(sig, clause="exception"), rep, f"{type(e).__name__}: {e}")
+            continue
+        good = slice(25, n // 2 - 2)
+        err = np.abs(cn[:, good] - coeffs[:, None]).max()
+        if not (err <= 1e-4 * max(1.0, np.abs(coeffs).max())):
+            ck.violation(sig, dict(rep, radii=[25, n // 2 - 3]), f"slit weights (range {1 / floor:.0e}): recovered coefficients differ from the exact model by {err:.3g}")
     # "all images": the memory layout of the array is not part of the image — column-major data (a transposed view, np.rot90,
     # data read from Fortran/MATLAB files) give the coefficients of the same pixels; origins that need no folding included
     for _ in range(60 if not deep else 500):
